@@ -170,6 +170,15 @@ def build_and_account(ctx, mod):
             continue
         discharged += 1
     res["discharged"] = discharged
+    if ctx.thorough and os.environ.get("VERIF_COQCHK", "1") != "0":
+        # independent re-check of the compiled theorems (and everything they depend on) by coqchk, which also lists
+        # the axioms of every loaded library file (a superset of what Print Assumptions reports per theorem)
+        ck = coqrun.coqchk(pid, timeout=int(os.environ.get("VERIF_COQCHK_TIMEOUT", "3000")))
+        res["coqchk"] = ck
+        ctx.log(f"coqchk: {ck['status']} in {ck['seconds']:.0f}s, axioms in context: {ck['axioms']}")
+        if ck["status"] == "failed":
+            problems.append({"kind": "proof", "what": "coqchk rejected the compiled development", "log_tail": ck["tail"]})
+            res["discharged"] = 0
     return res
 
 
@@ -279,6 +288,7 @@ def write_evidence(ctx, mod, acc, corr, violations, wall):
             "axioms reported by Print Assumptions: " + json.dumps({k: v for k, v in acc["assumptions"].items()}, sort_keys=True),
         ],
         "theorems": acc["names"],
+        "coqchk": acc.get("coqchk", {"status": "not run (quick tier)"}),
         "evaluations": corr.evaluations,
         "distinct_nontrivial": len(corr.nontrivial),
         "rule": corr.rule,
